@@ -275,6 +275,12 @@ def execute(dev):
             asc, desc = fout["hhea"].ascent, fout["hhea"].descent
             probes = picture.lattice(-50, max(adv, 600) + 50, desc - 50, asc + 50, 22)
             ref_tab, ref = next(iter(pin.items()))
+            if not any(ref(p)[3] > 0 for p in probes):
+                # a colour glyph that paints nothing (an empty source): nothing to add; whatever is there must paint nothing
+                for tab, at in pout.items():
+                    if any(at(p)[3] > 0 for p in probes):
+                        vs.append(bad("C12.pictures-agree", f"{[hex(c) for c in cps]}: input paints nothing, output {tab} paints something"))
+                continue
             # a bitmap has no foreground colour: resvg paints currentColor black
             ref_black = next(iter(pictures(fin, cps, (0.0, 0.0, 0.0, 1.0))[1].values()))
             for tab, at in pout.items():
@@ -285,7 +291,8 @@ def execute(dev):
                     st = picture.compare(ref_black, at, probes, 14.0, theta=6 / 255, tau=48 / 255)
                 compared += 1
                 if st["bad"] > (0 if vector else max(3, st["valid"] // 50)):
-                    vs.append(bad("C12.pictures-agree", f"{[hex(c) for c in cps]} ({name_o}): output {tab} differs from input {ref_tab} on {st['bad']} of {st['valid']} probes, e.g. {st['first'][:1]}"))
+                    sig = "cbdt-palette-variables" if (tab == "CBDT" and a["palettes"] == 2) else None
+                    vs.append(bad("C12.pictures-agree", f"{[hex(c) for c in cps]} ({name_o}): output {tab} differs from input {ref_tab} on {st['bad']} of {st['valid']} probes, e.g. {st['first'][:1]}", sig=sig))
             if {"COLR", "SVG"} - set(pout):
                 vs.append(bad("C12.pictures-agree", f"{[hex(c) for c in cps]}: colour tables painting it: {sorted(pout)}"))
             if a["bitmaps"] and "CBDT" not in pout and adv > 0:
@@ -327,7 +334,8 @@ def run(report, tier, only=None):
     try:
         extra = [{"kind": "nano_picosvg", "colr_version": 0}, {"kind": "nano_untouchedsvg", "colr_version": 0},
                  {"kind": "nano_colr1", "bitmaps": True}, {"kind": "nano_picosvg", "bitmaps": True}, {"kind": "nano_colr1", "keep": False},
-                 {"kind": "nano_picosvg", "bitmaps": True, "empty_middle": True}, {"kind": "nano_colr1", "bitmaps": True, "empty_middle": True}]
+                 {"kind": "nano_picosvg", "bitmaps": True, "empty_middle": True}, {"kind": "nano_colr1", "bitmaps": True, "empty_middle": True},
+                 {"bitmaps": True, "palettes": 2}, {"kind": "nano_untouchedsvg", "empty_middle": True}]
         lattice.explore(report, DIMS, k, execute, relevant=relevant, timeout=1200, extra_states=extra)
     finally:
         pool.nproc = old
